@@ -544,6 +544,24 @@ pub fn run_shard(ctx: &mut Ctx) {
     let is07 = ctx.prop == "C07";
     if is07 {
         full_queue_rounds(ctx, &mut r);
+    } else {
+        // accounting along walks in which update_state moves last/purged back and forth, so that log ids that are
+        // still resident are appended again, truncated, purged and replayed by restarts (no specification needed:
+        // the rule compares stat() with the resident set)
+        let n = if ctx.tier == Tier::Quick { 100 } else { 20_000 };
+        for _ in 0..n {
+            if !ctx.time_left() {
+                break;
+            }
+            let (ws, _, a) = crate::props::c16walk::walk2(r.next());
+            ctx.out.count("walk:walks", 1);
+            ctx.out.count("walk:accounting_observations", ws.accounting_observations);
+            ctx.out.count("walk:update_state_calls", ws.update_states);
+            ctx.out.count("walk:appends_of_an_id_appended_before", ws.reappended_resident_ids);
+            if let Some(a) = a {
+                ctx.out.viol(a);
+            }
+        }
     }
     loop {
         if ctx.tier == Tier::Quick && h >= quick_n {
